@@ -134,8 +134,9 @@ func BoundaryProduct(target string, k, maxN int, codecs []sut.Codec, gzipMaxN in
 }
 
 // WithOptStyle runs a family with the writer options passed in another style
-// (sut.OptStyle: 1 = codec before page size, 2 = both options given twice,
-// other values first - the later option decides).
+// (sut.OptStyle: 1 = codec before page size; 2 = both options given twice,
+// other values first, exists in the glue but is not registered in any family:
+// what a duplicated option means is not specified by any property).
 func WithOptStyle(style int, f Family) Family {
 	return Family{Name: fmt.Sprintf("%s-opt%d", f.Name, style), Gen: func(c *fw.Ctx, emit Emit) {
 		old := sut.OptStyle
@@ -764,7 +765,6 @@ func ForC01(thorough bool) []Family {
 			StructureExhaustive("samedeep", 4, 2, true, 0),
 			BoundaryProduct("one", 4, 4, codecs2, 0),
 			WithOptStyle(1, BoundaryProduct("mini", 3, 3, codecs3, 3)),
-			WithOptStyle(2, BoundaryProduct("mini", 3, 3, codecs3, 3)),
 			BoundaryProduct("oneopt", 3, 3, codecs2, 0),
 			BoundaryProduct("onerep", 3, 3, codecs2, 0),
 			NestedLists("document", []int{0, 1, 2, 3}),
@@ -809,8 +809,6 @@ func ForC01(thorough bool) []Family {
 		StructureExhaustive("samedeep", 6, 2, true, 0),
 		BoundaryProduct("one", 6, 6, codecs2, 0),
 		WithOptStyle(1, BoundaryProduct("mini", 4, 4, codecs3, 3)),
-		WithOptStyle(2, BoundaryProduct("mini", 4, 4, codecs3, 3)),
-		WithOptStyle(2, BoundaryProduct("flat3", 3, 3, codecs3, 3)),
 		BoundaryProduct("oneopt", 5, 5, codecs2, 0),
 		BoundaryProduct("onerep", 4, 4, codecs2, 0),
 		NestedLists("document", []int{0, 1, 2, 3, 4, 9}),
